@@ -308,12 +308,27 @@ def judge(ctx, obj, jm, case):
         ctx.count("results_used_as_text_after_partial_iteration")
         if whole != txt:
             ctx.violation("text-after-partial-iteration-differs", {"got": whole[:150], "expected": txt[:150]}, case)
+    if len(txt) % 4 == 3:
+        # a coloured result of the same value is compared with a fresh no-colour result (from either side): the
+        # no-colour result stays a no-colour result
+        try:
+            coloured, plain = pp(obj), pp(obj, no_color=True)
+            coloured == plain, plain != coloured
+            after_cmp = str(plain)
+        except Exception as err:
+            ctx.violation("printing-raises", {"type": type(err).__name__, "msg": str(err)[:150]}, case)
+            return
+        ctx.count("no_colour_results_compared_with_coloured_ones")
+        if after_cmp != txt:
+            ctx.violation("comparing-results-changes-the-no-colour-output", {"got": after_cmp[:150], "expected": txt[:150]}, case)
     if len(txt) % 4 == 2:
         # the caller takes the text of a result as an object of its own and adds to it; the result stays what it was
+        # (the text is taken by the documented accessor, as a whole-text slice, or as the sum with an empty text)
         try:
             kept = pp(obj, no_color=True)
             before = str(kept)
-            mine = kept.get_ch_text()
+            how = len(txt) % 3
+            mine = kept.get_ch_text() if how == 0 else kept[:len(txt) + 5000] if how == 1 else kept + ""
             mine += " -- seen"
             after = str(kept)
         except Exception as err:
